@@ -221,6 +221,17 @@ func NewMemberContentFromEvent(event PDU) (c MemberContent, err error) {
 		c.AuthorisedVia = partial.AuthorizedVia
 		c.MXIDMapping = partial.MXIDMapping
 	}
+	if c.ThirdPartyInvite == nil {
+		// "third_party_invite": null decodes like an absent member, but the
+		// content does have the property: it claims a third-party invite and
+		// carries no signed block, like "third_party_invite": {}.
+		var members map[string]json.RawMessage
+		if json.Unmarshal(event.Content(), &members) == nil {
+			if v, ok := members["third_party_invite"]; ok && string(bytes.TrimSpace(v)) == "null" {
+				c.ThirdPartyInvite = &MemberThirdPartyInvite{}
+			}
+		}
+	}
 	return
 }
 
